@@ -290,6 +290,51 @@ def hexStr (x : Bytes) : List Nat := x.flatMap fun b => [hexDigit (b.toNat / 16)
 /-- `bytes(n)`: `n` zero bytes, ValueError for a negative `n` -/
 def zerosE (n : Int) : Except Err Bytes := if n < 0 then .error .value else .ok (List.replicate n.toNat 0)
 
+/-- `s.add(x)` on a set kept as a list without duplicates (a set is only ever asked `in`) -/
+def setAdd {α : Type} [DecidableEq α] (s : List α) (x : α) : List α := if x ∈ s then s else s ++ [x]
+
+/-- `s.add(x)` where `x` may be `None`, on a set of which only `bytes` members are ever asked: `None` changes no answer -/
+def setAddO {α : Type} [DecidableEq α] (s : List α) : Option α → List α
+  | none => s
+  | some x => setAdd s x
+
+/-- reading an attribute only some classes of the object have: `e` where the guard says it is absent -/
+def guardE {α : Type} (e : Err) (c : Bool) (a : α) : Except Err α := if c then .ok a else .error e
+
+/-- `for x in l: …` over a list of objects whose body may mutate `x` (through its methods) and may `return`: the list with the
+    visited objects as they are afterwards, and whether the body returned (the objects after that one are not visited) -/
+def forObjs {α : Type} (l : List α) (body : α → α × Bool) : List α × Bool :=
+  match l with
+  | [] => ([], false)
+  | x :: rest =>
+    if (body x).2 then ((body x).1 :: rest, true)
+    else (((body x).1 :: (forObjs rest body).1), (forObjs rest body).2)
+
+/-- `forObjs` for a body that may raise: each round ends in (the object as it is then, `.ok returned?` or the exception);
+    an exception ends the loop like a `return` does (the objects after that one are not visited) -/
+def forObjsE {α : Type} (l : List α) (body : α → α × Except Err Bool) : List α × Except Err Bool :=
+  match l with
+  | [] => ([], .ok false)
+  | x :: rest =>
+    match (body x).2 with
+    | .ok false => (((body x).1 :: (forObjsE rest body).1), (forObjsE rest body).2)
+    | r => ((body x).1 :: rest, r)
+
+/-- the list after its last element (an object that was appended and is still held by a local) was mutated -/
+def setLast {α : Type} (l : List α) (x : α) : List α := l.dropLast ++ [x]
+
+/-- `s.split(sep)` for a one-character separator (a str is the list of its code points): never the empty list -/
+def strSplit (sep : Nat) : List Nat → List (List Nat)
+  | [] => [[]]
+  | c :: cs =>
+    if c = sep then [] :: strSplit sep cs
+    else match strSplit sep cs with
+      | [] => [[c]]
+      | h :: t => (c :: h) :: t
+
+/-- `s.replace(c, "")` for a one-character `c` -/
+def strRemove (c : Nat) (s : List Nat) : List Nat := s.filter (· ≠ c)
+
 /-- `bytearray.append(v)`: ValueError unless `v` is in range(256) -/
 def appendByteE (x : Bytes) (v : Int) : Except Err Bytes :=
   if v < 0 ∨ v ≥ 256 then .error .value else .ok (x ++ [UInt8.ofNat v.toNat])
